@@ -1,5 +1,7 @@
 (* CredFun.v — the model's decision functions ARE the C functions, as translated from the source text on every run
-   (tools/facts/cfun.py -> gen/GenCredFun.v): enc_validate_msg, dec_validate_auth, dec_validate_time.
+   (tools/facts/cfun.py -> gen/GenCredFun.v): enc_validate_msg, dec_validate_auth, dec_validate_time, and (second half)
+   dec_validate_msg, dec_check_retry / enc_check_retry, dec_timestamp / enc_timestamp, dec_authenticate /
+   enc_authenticate, dec_validate_replay.  The control skeletons (dec_process_msg, enc_process_msg) are in CredPipe.v.
    The translation makes C's integer types explicit (uint8/uint32 wrap, conversion to int, 64-bit time_t), so a dropped
    cast, a swapped pair of statements, a comparison against the wrong member or a changed operator changes the generated
    function and breaks the equalities below. *)
@@ -133,4 +135,118 @@ Proof.
       rewrite <- N2Z.inj_add. norm.
       destruct (Z.of_N t1 <? Z.of_N t0 - 1)%Z eqn:E1; redx; [reflexivity|]; rewrite <- ?N2Z.inj_add; norm.
       destruct (t0 + tt <? t1) eqn:E2; redx; reflexivity.
+Qed.
+
+Lemma zleb (a b : N) : (Z.of_N a <=? Z.of_N b)%Z = (a <=? b).
+Proof. destruct (N.leb_spec a b); [apply Z.leb_le|apply Z.leb_gt]; lia. Qed.
+
+Lemma zgtb0 (a : N) : (Z.of_N a >? 0)%Z = (0 <? a).
+Proof. exact (zgtb a 0). Qed.
+
+Lemma to_n_wrap32 (x : N) : Z.to_N (wrap32 (Z.of_N x)) = u32 x.
+Proof.
+  unfold wrap32, u32. change 4294967296%Z with (Z.of_N 4294967296).
+  rewrite <- N2Z.inj_mod by discriminate. apply N2Z.id.
+Qed.
+
+Lemma clock_not_failed (now : N) : (Z.of_N now =? -1)%Z = false.
+Proof. apply Z.eqb_neq. lia. Qed.
+
+Ltac norm2 := norm; rewrite ?zleb, ?zgtb0.
+
+(* ==================================================================== *)
+(* the remaining small decision functions of dec.c / enc.c              *)
+(* ==================================================================== *)
+
+(* ---------------- dec_validate_msg: a request without a credential ----------------
+   p = the address in m->data.  m_msg.c allocates m->data exactly when data_len > 0, so the model's test on the
+   length alone is the source's test under that invariant (second statement). *)
+Theorem dec_validate_msg_is_source : forall (cf : conf) (p : Z) (m : msg),
+  src_dec_validate_msg cf p m = ((if (m_data_len m =? 0) || (p =? 0)%Z then e_snafu else 0), m).
+Proof.
+  intros cf p m. unfold src_dec_validate_msg. norm2.
+  destruct ((m_data_len m =? 0) || (p =? 0)%Z); reflexivity.
+Qed.
+
+Corollary dec_validate_msg_is_model : forall (cf : conf) (p : Z) (m : msg),
+  (p = 0%Z <-> m_data_len m = 0) ->
+  src_dec_validate_msg cf p m = ((if m_data_len m =? 0 then e_snafu else 0), m).
+Proof.
+  intros cf p m H. rewrite dec_validate_msg_is_source.
+  destruct (N.eqb_spec (m_data_len m) 0) as [E|E]; [reflexivity|].
+  destruct (Z.eqb_spec p 0) as [P|P]; [apply H in P; contradiction|reflexivity].
+Qed.
+
+(* ---------------- dec_check_retry / enc_check_retry: the retry limit ---------------- *)
+Theorem dec_check_retry_is_source : forall (cf : conf) (m : msg),
+  src_dec_check_retry cf m = ((if c_retry_attempts <? m_retry m then e_socket else 0), m).
+Proof.
+  intros cf m. unfold src_dec_check_retry.
+  destruct (Z.of_N (m_retry m) >? 0)%Z; redx; norm2; destruct (c_retry_attempts <? m_retry m); reflexivity.
+Qed.
+
+Theorem enc_check_retry_is_source : forall (cf : conf) (m : msg),
+  src_enc_check_retry cf m = ((if c_retry_attempts <? m_retry m then e_socket else 0), m).
+Proof.
+  intros cf m. unfold src_enc_check_retry.
+  destruct (Z.of_N (m_retry m) >? 0)%Z; redx; norm2; destruct (c_retry_attempts <? m_retry m); reflexivity.
+Qed.
+
+(* ---------------- dec_timestamp / enc_timestamp: which members are set from the clock ----------------
+   the clock is a time_t (64 bit); the members are uint32_t, so the stored value is the clock mod 2^32 *)
+Theorem dec_timestamp_is_source : forall (cf : conf) (now : N) (m : msg),
+  src_dec_timestamp cf (Z.of_N now) m = (0, m <| m_time0 := 0 |> <| m_time1 := u32 now |>).
+Proof.
+  intros cf now m. unfold src_dec_timestamp. rewrite clock_not_failed.
+  cbn beta iota zeta. rewrite to_n_wrap32. reflexivity.
+Qed.
+
+Theorem enc_timestamp_is_source : forall (cf : conf) (now : N) (m : msg),
+  src_enc_timestamp cf (Z.of_N now) m = (0, m <| m_time0 := u32 now |> <| m_time1 := 0 |>).
+Proof.
+  intros cf now m. unfold src_enc_timestamp. rewrite clock_not_failed.
+  cbn beta iota zeta. rewrite to_n_wrap32. reflexivity.
+Qed.
+
+(* time () failing is an internal error on both paths and leaves the message alone *)
+Theorem timestamp_clock_failure_is_source : forall (cf : conf) (m : msg),
+  src_dec_timestamp cf (-1) m = (e_snafu, m) /\ src_enc_timestamp cf (-1) m = (e_snafu, m).
+Proof. intros cf m. split; reflexivity. Qed.
+
+(* ---------------- dec_authenticate / enc_authenticate: which members receive the peer's ids ----------------
+   auth_recv is an opaque source of (rc, uid, gid); any rc other than EMUNGE_SUCCESS is a failure *)
+Theorem dec_authenticate_is_source : forall (cf : conf) (rc : Z) (pu pg : N) (m : msg),
+  src_dec_authenticate cf rc (Z.of_N pu) (Z.of_N pg) m =
+  if (rc =? 0)%Z then (0, m <| m_client_uid := pu |> <| m_client_gid := pg |>) else (e_snafu, m).
+Proof.
+  intros cf rc pu pg m. unfold src_dec_authenticate. rewrite !zn.
+  change (Z.of_N e_success) with 0%Z. destruct (rc =? 0)%Z; reflexivity.
+Qed.
+
+Theorem enc_authenticate_is_source : forall (cf : conf) (rc : Z) (pu pg : N) (m : msg),
+  src_enc_authenticate cf rc (Z.of_N pu) (Z.of_N pg) m =
+  if (rc =? 0)%Z then (0, m <| m_client_uid := pu |> <| m_client_gid := pg |>) else (e_snafu, m).
+Proof.
+  intros cf rc pu pg m. unfold src_enc_authenticate. rewrite !zn.
+  change (Z.of_N e_success) with 0%Z. destruct (rc =? 0)%Z; reflexivity.
+Qed.
+
+(* ---------------- dec_validate_replay: replay_insert's outcome x the retry exemption ----------------
+   ins = replay_insert's result (0 inserted, > 0 already there, < 0 failure), en = errno after it.  A credential that
+   is already there is accepted exactly when retries are enabled and 0 < retry <= MUNGE_SOCKET_RETRY_ATTEMPTS. *)
+Definition replay_exempt (cf : conf) (m : msg) : bool :=
+  cf_socket_retry cf && (0 <? m_retry m) && (m_retry m <=? c_retry_attempts).
+
+Theorem dec_validate_replay_is_source : forall (cf : conf) (ins en : Z) (m : msg),
+  src_dec_validate_replay cf ins en m =
+  ((if (ins =? 0)%Z then 0
+    else if (ins >? 0)%Z then (if replay_exempt cf m then 0 else e_cred_replayed)
+    else if (en =? 12)%Z then e_no_memory else e_snafu), m).
+Proof.
+  intros cf ins en m. unfold src_dec_validate_replay, replay_exempt.
+  cbn beta iota zeta.
+  destruct (ins =? 0)%Z; [reflexivity|]. cbn beta iota.
+  destruct (ins >? 0)%Z; cbn beta iota.
+  - norm2. destruct (cf_socket_retry cf && (0 <? m_retry m) && (m_retry m <=? c_retry_attempts)); reflexivity.
+  - destruct (en =? 12)%Z; reflexivity.
 Qed.
